@@ -148,6 +148,7 @@ type ClientSpec struct {
 	NoCL          bool        `json:"nocl,omitempty"`           // data requests without Content-Length (chunked transfer)
 	AbortHS       bool        `json:"abortHandshake,omitempty"` // the client gives up while its handshake request is being served
 	RecvWindow    int         `json:"recvWindow,omitempty"`     // WebSocket: once the client has gone silent it also stops reading; the server's writes stall when that many bytes are unread
+	WriteDelayMs  int         `json:"writeDelay,omitempty"`     // WebSocket: every write of the server to this client's connections takes that long (slow link)
 	EarlyWS       bool        `json:"earlyWS,omitempty"`        // WebSocket: the client goes ahead as soon as the 101 is on the wire, while the server's handler is still at work
 	Retry         bool        `json:"retry,omitempty"`          // after a failed candidate, try a conformant upgrade later
 	RetryAtMs     int         `json:"retryAt,omitempty"`
